@@ -1,14 +1,14 @@
-(* Obligation C20/normal_params_mv_roundtrip.  Statement as printed by Coq from Inferno.C20.DistProofs; proof by reference.
+(* Obligation C20/normal_params_mv_roundtrip.  Statement as printed by Coq from Inferno.C20.DistNormal; proof by reference.
    This file contains nothing else, so the statement cannot be weakened quietly. *)
 From Coq Require Import Reals List ZArith Bool.
 From Coquelicot Require Import Coquelicot.
 From Flocq Require Import Core.Raux.
-From Inferno Require Import Base.Num Base.NumR C20.Model C20.Spec C20.DistProofs.
+From Inferno Require Import Base.Num Base.NumR Gen.Distributions C20.Model C20.Spec C20.DistNormal.
 Import ListNotations.
 Open Scope R_scope.
 Theorem normal_params_mv_roundtrip : forall (m : T RN) (v : R),
   0 <= v ->
   normal_mean RN (fst (normal_params_mv RN m v)) = m /\
   normal_variance RN (snd (normal_params_mv RN m v)) = v.
-Proof. exact (@Inferno.C20.DistProofs.normal_params_mv_roundtrip). Qed.
+Proof. exact (@Inferno.C20.DistNormal.normal_params_mv_roundtrip). Qed.
 Print Assumptions normal_params_mv_roundtrip.
